@@ -547,14 +547,19 @@ class BaseOutlineCompiler:
                 uvsList = []
                 for hexvalue, glyphName in glyphMapping.items():
                     value = int(hexvalue, 16)
-                    if glyphName == mapping[value]:
+                    if glyphName not in self.allGlyphs:
+                        # the glyph is not exported: neither is the sequence
+                        continue
+                    if glyphName == mapping.get(value):
                         uvsList.append((value, None))
                     else:
                         uvsList.append((value, glyphName))
-                uvsDict[int(hexvs, 16)] = uvsList
-            cmap14_0_5.uvsDict = uvsDict
-            # update tables registry
-            cmap.tables.append(cmap14_0_5)
+                if uvsList:
+                    uvsDict[int(hexvs, 16)] = uvsList
+            if uvsDict:
+                cmap14_0_5.uvsDict = uvsDict
+                # update tables registry
+                cmap.tables.append(cmap14_0_5)
 
     def setupTable_OS2(self):
         """
